@@ -65,7 +65,8 @@ def generate(rng, focus, tier="quick"):
         "cash_buffer": rng.choice([0.0, 0, 0.01, 0.05, 0.1, 0.5, 1.0, 1]),
         "leverage": rng.choice([0.5, 1.0, 1, 1.5, 2.0, 2, 5.0]),
         "optimiser": ("equal" if rng.random() < (0.5 if f == "C19" else 0.25) else "fixed"),
-        "scale": rng.choice([1.0, 1.0, 0.5, 2.0, 0.3]),
+        "scale": rng.choice([1.0, 1.0, 0.5, 2.0, 0.3, 1, 2, 3]),       # Python ints too
+        "opt_call": rng.choice(["kw", "kw", "pos", "pos_scale_only", "np64"]),
         "fee": fee, "initial_cash": rng.choice([1e3, 1e4, 1e5, 1e6, 1e7, 54321.98]),
         "start": start, "universe_kind": uk,
         "quotes0": dict((a, _quote(rng, low=rng.random() < 0.25)) for a in assets),
@@ -149,10 +150,12 @@ def generate(rng, focus, tier="quick"):
             w = dict((a, 0.0) for a in w)
         if long_only and rng.random() < 0.06:
             # a strictly negative weight, possibly of negligible magnitude ("float noise"): still negative
-            w[keys[0]] = rng.choice([-1e-12, -5e-9, 0.3 - 0.1 - 0.2, -1e-7, -0.001, -0.25])
+            w[keys[0]] = rng.choice([-1e-12, -1e-17, -1e-20, -5e-324, -5e-9, 0.3 - 0.1 - 0.2, -1e-7, -0.001, -0.25])
             if len(keys) == 1:
                 w[rng.choice([a for a in assets if a != keys[0]] or keys)] = 0.5
         step = {"k": "rebalance", "t": now, "weights": w}
+        if rng.random() < 0.2:
+            step["no_stats"] = True          # pcm(dt): the optional stats argument left out
         if cfg["neighbour"]:
             ks2 = rng.sample(assets, rng.randrange(1, len(assets) + 1))
             step["weights2"] = dict((a, rng.choice([0.25, 0.5, 0.75, 1.0]) * (-1 if (not long_only and rng.random() < 0.3) else 1))
@@ -197,6 +200,8 @@ class _Universe(object):
 
 
 def execute(plan, focus, trace=False):
+    from ..core import apply_host_state
+    apply_host_state(plan)
     ctx = Ctx(focus, trace=trace)
     try:
         _run(plan, ctx)
@@ -258,7 +263,10 @@ def _run(plan, ctx):
         fm = ZeroFeeModel() if fee["kind"] == "zero" else PercentFeeModel(commission_pct=fee["c"], tax_pct=fee["t"])
     t0 = ts(cfg["start"])
     ex = SimulatedExchange(t0)
-    broker = SimulatedBroker(t0, ex, qb, account_id="rebal", initial_funds=cfg["initial_cash"], fee_model=fm)
+    if cfg.get("opt_call") == "pos":
+        broker = SimulatedBroker(t0, ex, qb, "rebal", "USD", cfg["initial_cash"], fm)
+    else:
+        broker = SimulatedBroker(t0, ex, qb, account_id="rebal", initial_funds=cfg["initial_cash"], fee_model=fm)
     broker.create_portfolio(PID, "rebal")
     broker.subscribe_funds_to_portfolio(PID, cfg["initial_cash"])
     uk = cfg["universe_kind"]
@@ -282,8 +290,19 @@ def _run(plan, ctx):
         sizer = DollarWeightedCashBufferedOrderSizer(broker, PID, qb, cash_buffer_percentage=cfg["cash_buffer"])
     else:
         sizer = LongShortLeveragedOrderSizer(broker, PID, qb, gross_leverage=cfg["leverage"])
-    opt = (EqualWeightPortfolioOptimiser(scale=cfg["scale"], data_handler=qb) if cfg["optimiser"] == "equal"
-           else FixedWeightPortfolioOptimiser(data_handler=qb))
+    if cfg["optimiser"] == "equal":
+        oc_ = cfg.get("opt_call", "kw")
+        if oc_ == "pos":
+            opt = EqualWeightPortfolioOptimiser(cfg["scale"], qb)          # (scale, data_handler) as documented
+        elif oc_ == "pos_scale_only":
+            opt = EqualWeightPortfolioOptimiser(cfg["scale"])
+        elif oc_ == "np64":
+            opt = EqualWeightPortfolioOptimiser(scale=__import__("numpy").float64(cfg["scale"]), data_handler=qb)
+        else:
+            opt = EqualWeightPortfolioOptimiser(scale=cfg["scale"], data_handler=qb)
+    else:
+        opt = (FixedWeightPortfolioOptimiser(qb) if cfg.get("opt_call") == "pos"
+               else FixedWeightPortfolioOptimiser(data_handler=qb))
     pcm = PortfolioConstructionModel(broker, PID, uni, sizer, opt, alpha_model=alpha, data_handler=qb)
     handler = ExecutionHandler(broker, PID, uni, submit_orders=True, execution_algo=MarketOrderExecutionAlgorithm(),
                                data_handler=qb)
@@ -471,7 +490,11 @@ def _run(plan, ctx):
         exc = None
         orders = None
         try:
-            orders = pcm(ts(t), stats=stats)
+            if op.get("no_stats"):
+                orders = pcm(ts(t))
+                ctx.probe("construction_model_called_without_stats")
+            else:
+                orders = pcm(ts(t), stats=stats)
         except Exception as e:
             exc = e
         ctx.event("rebalance", t, sorted(weights.items()), type(exc).__name__ if exc else len(orders))
@@ -567,7 +590,9 @@ def _run(plan, ctx):
                 ctx.check("C09", all(target.get(a, 0) == 0 for a in unweighted), "held_asset_without_weight_not_liquidated",
                           lambda: {"assets": unweighted, "target": target}, sig="held_asset_without_weight_not_liquidated")
             recs = stats["target_allocations"]
-            if ctx.check("C09", len(recs) == n_a + 1, "allocation_record_count", lambda: {"n": len(recs) - n_a}):
+            if op.get("no_stats"):
+                ctx.check("C09", len(recs) == n_a, "allocation_recorded_without_stats_argument", lambda: {"n": len(recs) - n_a})
+            elif ctx.check("C09", len(recs) == n_a + 1, "allocation_record_count", lambda: {"n": len(recs) - n_a}):
                 d = recs[-1]
                 ow = _opt_ref(cfg, weights)
                 keys = set(kk for kk in d if kk != "Date")
